@@ -167,3 +167,10 @@ Definition magnitude_scaled (s : Z) (n : Numeral) : N :=
 
 Definition value_scaled (s : Z) (n : Numeral) : Z :=
   let m := Z.of_N (magnitude_scaled s n) in if nm_neg n then (- m)%Z else m.
+
+(* a numeral as an exact rational: (+/-) digits(int ++ frac) / 10^|frac| *)
+Definition numeral_num (n : Numeral) : Z :=
+  let m := Z.of_N (parse_digits (nm_int n ++ nm_frac n)) in if nm_neg n then (- m)%Z else m.
+(* numeral = v * 10^(-s), cross-multiplied so that no division appears *)
+Definition numeral_eq (n : Numeral) (v s : Z) : Prop :=
+  (numeral_num n * 10 ^ Z.max s 0 = v * 10 ^ Z.max (- s) 0 * 10 ^ Z.of_nat (length (nm_frac n)))%Z.
